@@ -414,6 +414,10 @@ func checkRecvLoop(r *R, fn *ssa.Function, fullC, lessC int64) {
 	f1 := sl != nil && strip(sl.X, false) == strip(ioBuf, false) && zeroOrNil(sl.Low) && sl.High != nil && n != nil && strip(sl.High, false) == n && instrDominates(readCall, appendCall)
 	r.Check(f1, where, "F1 append exactly the bytes read", appendCall.Pos(), "appends buffer[:n] with n the count of that Read", "what is appended to the stream buffer is not buffer[:n] with n the count returned by the same Read (stale or missing bytes enter the stream)")
 
+	// F6: what was read is parsed before anything else is read
+	unparsed := reachAvoiding(appendCall, func(in ssa.Instruction) bool { return in == ssa.Instruction(readCall) }, func(in ssa.Instruction) bool { return in == ssa.Instruction(parseCall) })
+	r.Check(unparsed == nil, where, "F6 every read is followed by a parse", appendCall.Pos(), "no path from the append back to Read that skips ParsePackage", "bytes can be appended and the loop can go back to Read without parsing them: complete packets wait in the buffer until some later read happens to be short (for ever, when the peer stops after a burst that fills the read buffer exactly), and an illegal length prefix is not rejected")
+
 	// F2: fresh copy of cur[:L], remainder cur[L:], same L, under status == Full
 	underFull := func(b *ssa.BasicBlock) bool {
 		for _, f := range facts(b) {
